@@ -473,6 +473,17 @@ class Escape:
             elif lib in ('struct.pack', 'struct.pack_into') and call.args:
                 fmt = const_format(call.args[0])
                 nargs = len(call.args) - (1 if lib == 'struct.pack' else 3)
+                sv = self.sval(fi) if (fmt is None or any(isinstance(a_, ast.Starred) for a_ in call.args)) else None
+                if fmt is None and sv is not None and id(call.args[0]) in sv.terms and sv.terms[id(call.args[0])][0] == 'const' \
+                        and isinstance(sv.terms[id(call.args[0])][2], str):
+                    fmt = sv.terms[id(call.args[0])][2]         # a named constant for the format
+                for a_ in call.args:
+                    if isinstance(a_, ast.Starred) and sv is not None and id(a_.value) in sv.terms:
+                        t_ = sv.terms[id(a_.value)]
+                        if t_[0] == 'call' and isinstance(t_[1], str) and t_[1].startswith('namedtuple.'):
+                            nargs += len(t_[3]) - 1         # *record: one value per field
+                        elif t_[0] == 'tuple':
+                            nargs += len(t_[1]) - 1
                 if fmt is None or '{' in fmt and re.search(r'\{[^}]*\}(?![sp])', fmt) and False:
                     out.append(('struct.error', 'pack with non-constant format', call))
                 elif struct_fields(fmt)[0] != nargs:
